@@ -19,10 +19,282 @@ use crate::rng::{mix, Rng};
 use crate::watch;
 
 pub fn plan(tier: &str) -> u64 {
-    match tier {
-        "quick" => 40,
-        _ => 600,
+    n_rounds_cases(tier) + n_destroy_cases(tier)
+}
+
+fn n_rounds_cases(tier: &str) -> u64 {
+    if tier == "quick" {
+        40
+    } else {
+        600
     }
+}
+
+fn n_destroy_cases(tier: &str) -> u64 {
+    if tier == "quick" {
+        2 * DESTROY_POSITIONS
+    } else {
+        12 * DESTROY_POSITIONS
+    }
+}
+
+/// destroy_database makes about ten file system calls on a small closed database; the gate is put
+/// before each of them in turn
+const DESTROY_POSITIONS: u64 = 14;
+const DESTROYER: u32 = 77;
+
+/// Passes every call through to a disk-backed file system; the thread with role DESTROYER is
+/// stopped before its `stop_at`-th call until released.
+struct GateFs {
+    inner: Arc<dyn FileSystem>,
+    stop_at: u64,
+    calls: AtomicU64,
+    state: parking_lot::Mutex<(bool, bool, String)>,
+    cv: parking_lot::Condvar,
+    trace: parking_lot::Mutex<Vec<String>>,
+}
+
+impl GateFs {
+    fn gate(&self, what: &str, path: &std::path::Path) {
+        if crate::director::role() != DESTROYER {
+            return;
+        }
+        let name = path.file_name().map(|n| n.to_string_lossy().to_string()).unwrap_or_default();
+        let class = if name == "LOCK" || name == "CURRENT" { name.clone() } else if name.starts_with("MANIFEST") { "MANIFEST".into() } else if name == "wal" || name == "data" { name.clone() } else { "root".into() };
+        let desc = format!("{what}:{class}");
+        self.trace.lock().push(desc.clone());
+        let n = self.calls.fetch_add(1, Ordering::SeqCst);
+        if n != self.stop_at {
+            return;
+        }
+        let mut st = self.state.lock();
+        st.0 = true;
+        st.2 = desc;
+        self.cv.notify_all();
+        let deadline = std::time::Instant::now() + Duration::from_secs(20);
+        while !st.1 {
+            if self.cv.wait_until(&mut st, deadline).timed_out() {
+                break;
+            }
+        }
+    }
+    fn wait_arrived(&self, timeout: Duration) -> Option<String> {
+        let deadline = std::time::Instant::now() + timeout;
+        let mut st = self.state.lock();
+        while !st.0 {
+            if self.cv.wait_until(&mut st, deadline).timed_out() {
+                return None;
+            }
+        }
+        Some(st.2.clone())
+    }
+    fn release(&self) {
+        let mut st = self.state.lock();
+        st.1 = true;
+        self.cv.notify_all();
+    }
+}
+
+impl FileSystem for GateFs {
+    fn get_name(&self) -> String {
+        format!("GateFs({})", self.inner.get_name())
+    }
+    fn create_dir(&self, path: &std::path::Path) -> std::io::Result<()> {
+        self.gate("create_dir", path);
+        self.inner.create_dir(path)
+    }
+    fn create_dir_all(&self, path: &std::path::Path) -> std::io::Result<()> {
+        self.gate("create_dir_all", path);
+        self.inner.create_dir_all(path)
+    }
+    fn list_dir(&self, path: &std::path::Path) -> std::io::Result<Vec<PathBuf>> {
+        self.gate("list_dir", path);
+        self.inner.list_dir(path)
+    }
+    fn open_file(&self, path: &std::path::Path) -> std::io::Result<Box<dyn raindb::fs::ReadonlyRandomAccessFile>> {
+        self.gate("open_file", path);
+        self.inner.open_file(path)
+    }
+    fn rename(&self, from: &std::path::Path, to: &std::path::Path) -> std::io::Result<()> {
+        self.gate("rename", from);
+        self.inner.rename(from, to)
+    }
+    fn create_file(&self, path: &std::path::Path, append: bool) -> std::io::Result<Box<dyn raindb::fs::RandomAccessFile>> {
+        self.gate("create_file", path);
+        self.inner.create_file(path, append)
+    }
+    fn remove_file(&self, path: &std::path::Path) -> std::io::Result<()> {
+        self.gate("remove_file", path);
+        self.inner.remove_file(path)
+    }
+    fn remove_dir(&self, path: &std::path::Path) -> std::io::Result<()> {
+        self.gate("remove_dir", path);
+        self.inner.remove_dir(path)
+    }
+    fn remove_dir_all(&self, path: &std::path::Path) -> std::io::Result<()> {
+        self.gate("remove_dir_all", path);
+        self.inner.remove_dir_all(path)
+    }
+    fn get_file_size(&self, path: &std::path::Path) -> std::io::Result<u64> {
+        self.gate("get_file_size", path);
+        self.inner.get_file_size(path)
+    }
+    fn is_dir(&self, path: &std::path::Path) -> std::io::Result<bool> {
+        self.gate("is_dir", path);
+        self.inner.is_dir(path)
+    }
+    fn lock_file(&self, path: &std::path::Path) -> std::io::Result<raindb::fs::FileLock> {
+        self.gate("lock_file", path);
+        self.inner.lock_file(path)
+    }
+}
+
+/// destroy_database of a closed database is stopped before one of its file system calls; an open
+/// arrives in that window. Whoever gets the database must really own it: if the open succeeds the
+/// instance keeps working, stays exclusive and keeps its data, whatever destroy does afterwards;
+/// if it is refused, the database is either gone or intact afterwards.
+fn case_destroy_race(out: &mut CaseOut, seed: u64, idx: u64) {
+    let mut rng = Rng::new(mix(&[seed, idx], "c17-destroy"));
+    director().reset(rng.next_u64());
+    let scratch = Scratch::new(100_000 + idx);
+    let position = idx % DESTROY_POSITIONS;
+    let use_tmpfs = (idx / DESTROY_POSITIONS) % 2 == 0;
+    let tmpfs_holder;
+    let (inner, db_path): (Arc<dyn FileSystem>, String) = if use_tmpfs {
+        tmpfs_holder = Arc::new(TmpFileSystem::new(Some(&scratch.dir)));
+        (tmpfs_holder.clone() as Arc<dyn FileSystem>, "db".to_string())
+    } else {
+        (Arc::new(OsFileSystem::new()), scratch.dir.join("db").to_string_lossy().to_string())
+    };
+    let gate_fs = Arc::new(GateFs {
+        inner: Arc::clone(&inner),
+        stop_at: position,
+        calls: AtomicU64::new(0),
+        state: parking_lot::Mutex::new((false, false, String::new())),
+        cv: parking_lot::Condvar::new(),
+        trace: parking_lot::Mutex::new(vec![]),
+    });
+    let fs: Arc<dyn FileSystem> = gate_fs.clone();
+    let memtable = *rng.pick(&[512usize, 65536]);
+    let fsname = if use_tmpfs { "tmpfs" } else { "osfs" };
+    // a small closed database
+    let mut old: BTreeMap<Vec<u8>, Vec<u8>> = BTreeMap::new();
+    {
+        let db = match DB::open(options(&fs, &db_path, memtable)) {
+            Ok(db) => db,
+            Err(e) => {
+                out.violate("C17/owner-open-failed-although-nobody-holds-the-database", json!({"error": e.to_string()}));
+                return;
+            }
+        };
+        for i in 0..rng.range(5, 60) {
+            let (k, v) = (format!("old{i:03}").into_bytes(), format!("o{i}-{}", "z".repeat(rng.range(0, 80) as usize)).into_bytes());
+            if db.put(WriteOptions::default(), k.clone(), v.clone()).is_ok() {
+                old.insert(k, v);
+            }
+        }
+        drop(db);
+    }
+    let destroyer = {
+        let (fs, db_path) = (Arc::clone(&fs), db_path.clone());
+        std::thread::Builder::new().name("c17-destroyer".into()).spawn(move || {
+            set_role(DESTROYER);
+            let _g = watch::enter("destroy_database(gated)");
+            DB::destroy_database(options(&fs, &db_path, memtable)).map_err(|e| e.to_string())
+        }).unwrap()
+    };
+    let stopped_before = gate_fs.wait_arrived(Duration::from_secs(10));
+    let mut ctx = json!({"family": "destroy-vs-open", "filesystem": fsname, "destroy_stopped_before_call": position, "call": stopped_before});
+    let mut held: Option<DB> = None;
+    let mut files_at_open = vec![];
+    if stopped_before.is_some() {
+        let _g = watch::enter("open(during-destroy)");
+        if let Ok(db) = DB::open(options(&fs, &db_path, memtable)) {
+            files_at_open = listing(&scratch.dir);
+            held = Some(db);
+        }
+    }
+    gate_fs.release();
+    let destroy_result = match destroyer.join() {
+        Ok(r) => r,
+        Err(_) => Err("destroy_database panicked".to_string()),
+    };
+    ctx["destroy_result"] = json!(destroy_result.clone().err().unwrap_or_else(|| "Ok".into()));
+    ctx["destroy_calls"] = json!(gate_fs.trace.lock().clone());
+    ctx["open_during_destroy"] = json!(held.is_some());
+    out.add("destroy_races", 1);
+    match (&stopped_before, held) {
+        (Some(call), Some(db)) => {
+            out.add("opens_that_won_against_destroy", 1);
+            // the instance obtained during the destroy call owns the database from here on
+            let after = listing(&scratch.dir);
+            let vanished: Vec<&String> = files_at_open.iter().filter(|f| {
+                let name = f.split(':').next().unwrap_or("");
+                (name.ends_with("CURRENT") || name.ends_with("LOCK") || name.contains("MANIFEST")) && !after.iter().any(|g| g.split(':').next() == Some(name))
+            }).collect();
+            if !vanished.is_empty() {
+                out.violate("C17/destroy-removed-files-of-an-open-database", json!({"ctx": ctx, "vanished": vanished}));
+            }
+            let mut model: BTreeMap<Vec<u8>, Vec<u8>> = BTreeMap::new();
+            let mut write_failed = false;
+            for i in 0..30 {
+                let (k, v) = (format!("new{i:03}").into_bytes(), format!("n{i}-{}", "q".repeat(40)).into_bytes());
+                match db.put(WriteOptions::default(), k.clone(), v.clone()) {
+                    Ok(()) => {
+                        model.insert(k, v);
+                    }
+                    Err(e) => {
+                        out.violate("C17/owner-write-failed-after-destroy-ran", json!({"ctx": ctx, "error": e.to_string()}));
+                        write_failed = true;
+                        break;
+                    }
+                }
+            }
+            verify_contents(out, &db, &model, "instance-opened-during-destroy", &ctx);
+            {
+                let _g = watch::enter("open(second-while-held)");
+                if let Ok(second) = DB::open(options(&fs, &db_path, memtable)) {
+                    out.violate("C17/second-open-succeeded-while-open/after-destroy-ran", json!({"ctx": ctx, "files": listing(&scratch.dir)}));
+                    drop(second);
+                }
+            }
+            drop(db);
+            if !write_failed && !out.is_violated() {
+                match DB::open(options(&fs, &db_path, memtable)) {
+                    Ok(db) => {
+                        verify_contents(out, &db, &model, "reopen-after-instance-opened-during-destroy", &ctx);
+                        drop(db);
+                    }
+                    Err(e) => out.violate("C17/reopen-failed-after-instance-opened-during-destroy", json!({"ctx": ctx, "error": e.to_string(), "files": listing(&scratch.dir)})),
+                }
+            }
+            out.nontrivial(format!("destroy-race/{fsname}/before-{call}/open-won"));
+        }
+        (Some(call), None) => {
+            // the open was refused: destroy owned the path. Afterwards the path is free.
+            match DB::open(options(&fs, &db_path, memtable)) {
+                Ok(db) => {
+                    if destroy_result.is_ok() {
+                        for k in old.keys().take(5) {
+                            if db.get(ReadOptions::default(), k).is_ok() {
+                                out.violate("C17/data-survived-a-successful-destroy", json!({"ctx": ctx, "key": show(k)}));
+                                break;
+                            }
+                        }
+                    }
+                    drop(db);
+                }
+                Err(e) => out.violate("C17/owner-open-failed-although-nobody-holds-the-database", json!({"ctx": ctx, "error": e.to_string(), "files": listing(&scratch.dir)})),
+            }
+            out.nontrivial(format!("destroy-race/{fsname}/before-{call}/open-refused"));
+        }
+        (None, _) => {
+            // destroy made fewer calls than this position: nothing to race with
+            out.add("destroy_finished_before_gate", 1);
+        }
+    }
+    let _ = DB::destroy_database(options(&inner, &db_path, memtable));
+    out.sample = Some(ctx);
 }
 
 struct Scratch {
@@ -97,6 +369,10 @@ fn verify_contents(out: &mut CaseOut, db: &DB, model: &BTreeMap<Vec<u8>, Vec<u8>
 
 pub fn run_case(tier: &str, seed: u64, idx: u64) -> CaseOut {
     let mut out = CaseOut::new();
+    if idx >= n_rounds_cases(tier) {
+        case_destroy_race(&mut out, seed, idx - n_rounds_cases(tier));
+        return out;
+    }
     let mut rng = Rng::new(mix(&[seed, idx], "c17"));
     let d = director();
     d.reset(rng.next_u64());
